@@ -29,6 +29,38 @@ def label_fn(fw, cu):
     return f
 
 
+def intrinsic_date_mismatch(sample, rn):
+    """D18 is about ONE string: the dateutil-based class that detects it (first accepting class in registry order) says
+    date / time / datetime, and pydantic's own parser for that very type rejects it.  A rejection that does not come from
+    such a string (e.g. a date-only string in a field resolved to datetime) is NOT the listed finding."""
+    from pydantic.v1 import datetime_parse as dp
+    parsers = {"IsoDateString": dp.parse_date, "IsoTimeString": dp.parse_time, "IsoDatetimeString": dp.parse_datetime}
+    cl = impl.pseudo_classes()
+    for x in gen.all_strings(sample):
+        first = next((n for n in rn if impl.accepts(cl[n], x)), None)
+        if first in parsers:
+            try:
+                parsers[first](x)
+            except Exception:  # noqa
+                return True
+    return False
+
+
+def replace_pair_cases():
+    """targeted search: for every replace pair (a -> b) the package registers NOW, one field holding a string of a and a
+    string of b; if b does not accept what a accepts, some generated model rejects its own sample"""
+    pools = {"IntString": gen.INTS, "FloatString": gen.FLOATS, "BooleanString": gen.BOOLS, "IsoDateString": gen.DATES,
+             "IsoTimeString": gen.TIMES, "IsoDatetimeString": gen.DATETIMES}
+    out = []
+    for a, b in impl.live_replaces():
+        rn = RN6 if (a.startswith("Iso") or b.startswith("Iso")) else RN3
+        for sa in pools.get(a, [])[:4]:
+            for sb in pools.get(b, [])[:2]:
+                for fw in ("pydantic", "attrs"):
+                    out.append(([{"f": sa}, {"f": sb}], {"rn": rn, "fw": fw}))
+    return out
+
+
 def oracle(samples, o):
     """-> (failure, tags)"""
     try:
@@ -61,7 +93,8 @@ def oracle(samples, o):
                                                                  "value is not a valid dict")):
                         tags.add("pydantic-optional-list-of-none")
                     if any(x in msg for x in ("invalid date format", "invalid time format", "invalid datetime format",
-                                              "invalid date", "invalid time", "invalid datetime")):
+                                              "invalid date", "invalid time", "invalid datetime")) \
+                            and intrinsic_date_mismatch(s, oo["rn"]):
                         tags.add("pydantic-date-grammar")
                     return f"sample {i} rejected by Root.parse_obj: {msg}", tags
             return None, set()
@@ -104,9 +137,10 @@ def run(chk, build):
     n = 500 if tier == "quick" else 20000
     g0 = gen.Gen(chk.seed * 1000003 + 1)
     iterms, imeta, rterms, rmeta, eterms, emeta = [], [], [], [], [], []
-    for i in range(n + len(CORPUS)):
-        if i < len(CORPUS):
-            s, o = CORPUS[i]
+    corpus = CORPUS + replace_pair_cases()
+    for i in range(n + len(corpus)):
+        if i < len(corpus):
+            s, o = corpus[i]
             o = dict(o)
         else:
             o = options(g0.r, i, tier)
